@@ -241,8 +241,11 @@ def run(chk):
     choices = [('@', 11), ('%', 12), ('~', 12), ('\\', 12), ('a', 13), ('^', 12), (' ', 12), ('\n', 12)]
 
     runs = [('full', BASE, tables, 3 if tier == 'quick' else 4, 0, []),
-            ('sub', SUB, [tables[0], tables[1], tables[3]] if tier == 'quick' else tables[:4], 5 if tier == 'quick' else 6, 0, []),
+            ('sub', SUB, [tables[0], tables[1], tables[3]] if tier == 'quick' else tables[:4], 5, 0, []),
             ('setcat', SUB, tables[:2], 3 if tier == 'quick' else 4, 1 if tier == 'quick' else 2, choices)]
+    if tier != 'quick':
+        # length 6 over 10 characters is more than TLC's largest constructible set (10^6): eight characters instead
+        runs.append(('sub6', ['\\', '{', '%', '^', ' ', '\n', 'a', '~'], tables[:2], 6, 0, []))
     nbeh = 0
     for label, chars, tbls, maxlen, maxset, ch in runs:
         mod = mc_module('MC_Tokenizer', 'Tokenizer', chars, tbls, allc, maxlen, maxset, ch, var)
